@@ -123,9 +123,6 @@ impl MergeCtx {
 //@ end
 //@ lift crates/air-lib/trace-handler/src/merger/fold_merger/fold_lore_resolver.rs :: struct LoresLen
 //@ derive Clone Copy
-//@ rewrite 1 "struct LoresLen" => "pub struct LoresLen"
-//@ rewrite 1 "before_len: u32" => "pub before_len: u32"
-//@ rewrite 1 "after_len: u32" => "pub after_len: u32"
 //@ end
 
 impl LoresLen {
@@ -148,7 +145,7 @@ pub open spec fn sum_b(l: Seq<FoldSubTraceLore>, lo: int, hi: int) -> int
 pub open spec fn sum_a(l: Seq<FoldSubTraceLore>, lo: int, hi: int) -> int
     decreases hi - lo
 { if lo >= hi { 0 } else { sum_a(l, lo, hi - 1) + al(l[hi - 1]) } }
-pub open spec fn sum_bl(l: Seq<LoresLen>, lo: int, hi: int) -> int
+spec fn sum_bl(l: Seq<LoresLen>, lo: int, hi: int) -> int
     decreases hi - lo
 { if lo >= hi { 0 } else { sum_bl(l, lo, hi - 1) + l[hi - 1].before_len as int } }
 
@@ -244,8 +241,56 @@ proof fn lemma_sum_bl_ext(a: Seq<LoresLen>, b: Seq<LoresLen>, lo: int, hi: int)
 //@ end
 
 // typed views: they fix the types of `lens` / `cum_after_len` for the invariants (rustc infers them only from later uses)
-pub open spec fn lv(v: Vec<LoresLen>) -> Seq<LoresLen> { v@ }
+spec fn lv(v: Vec<LoresLen>) -> Seq<LoresLen> { v@ }
 pub open spec fn u32v(x: u32) -> int { x as int }
+
+// ---- the functional meaning of the convolution (the function's doc comment, as a spec)
+// generation of the k-th sublore's value
+pub open spec fn gen_of(l: Seq<FoldSubTraceLore>, c: MergeCtx, k: int) -> GenerationIdx {
+    match c.gen_at(l[k].value_pos) { Some(g) => g, None => GenerationIdx(0) }
+}
+// a group is a maximal run of sublores with the same generation: its first index ...
+pub open spec fn gs(l: Seq<FoldSubTraceLore>, c: MergeCtx, k: int) -> int
+    decreases k
+{ if k <= 0 { 0 } else if gen_of(l, c, k) != gen_of(l, c, k - 1) { k } else { gs(l, c, k - 1) } }
+// ... and its end (exclusive)
+pub open spec fn ge(l: Seq<FoldSubTraceLore>, c: MergeCtx, k: int) -> int
+    decreases l.len() - k
+{ if k + 1 >= l.len() { l.len() as int } else if gen_of(l, c, k + 1) != gen_of(l, c, k) { k + 1 } else { ge(l, c, k + 1) } }
+// [1, 1] [2, 2] [3, 3] => [12, 1] [11, 3] [9, 6]: after = the after lens of the group up to and including k;
+// before = the before lens from k to the end of the group plus the after lens of the whole group
+pub open spec fn conv_after(l: Seq<FoldSubTraceLore>, c: MergeCtx, k: int) -> int { sum_a(l, gs(l, c, k), k + 1) }
+pub open spec fn conv_before(l: Seq<FoldSubTraceLore>, c: MergeCtx, k: int) -> int {
+    sum_b(l, k, ge(l, c, k)) + sum_a(l, gs(l, c, k), ge(l, c, k))
+}
+spec fn convoluted(x: LoresLen, l: Seq<FoldSubTraceLore>, c: MergeCtx, k: int) -> bool {
+    x.after_len == conv_after(l, c, k) && x.before_len == conv_before(l, c, k)
+}
+
+// a run [k, e) of equal generations that ends at e (end of the lore or a different generation) is k's group tail
+proof fn lemma_ge(l: Seq<FoldSubTraceLore>, c: MergeCtx, k: int, e: int)
+    requires 0 <= k < e <= l.len(),
+        forall|j: int| k <= j < e ==> gen_of(l, c, j) == gen_of(l, c, k),
+        e == l.len() || gen_of(l, c, e) != gen_of(l, c, e - 1),
+    ensures ge(l, c, k) == e
+    decreases e - k
+{ if k + 1 < e { lemma_ge(l, c, k + 1, e); } }
+
+// closing the open group [g, i): compute_before_lens turns the raw lens into the convoluted ones
+proof fn lemma_group_final(o: Seq<LoresLen>, n: Seq<LoresLen>, l: Seq<FoldSubTraceLore>, c: MergeCtx, g: int, i: int)
+    requires 0 <= g < i <= l.len(), o.len() == n.len(), i <= o.len(),
+        forall|k: int| g <= k < i ==> (#[trigger] o[k]).before_len == bl(l[k]) && o[k].after_len == sum_a(l, g, k + 1),
+        forall|k: int| g <= k < i ==> (#[trigger] n[k]).after_len == o[k].after_len,
+        forall|k: int| g <= k < i ==> (#[trigger] n[k]).before_len == sum_bl(o, k, i) + o[i - 1].after_len,
+        forall|k: int| g <= k < i ==> gs(l, c, k) == g && gen_of(l, c, k) == gen_of(l, c, g),
+        i == l.len() || gen_of(l, c, i) != gen_of(l, c, i - 1),
+    ensures forall|k: int| g <= k < i ==> convoluted(#[trigger] n[k], l, c, k)
+{
+    assert forall|k: int| g <= k < i implies convoluted(#[trigger] n[k], l, c, k) by {
+        lemma_sum_bl_is_sum_b(o, l, k, i);
+        lemma_ge(l, c, k, i);
+    }
+}
 
 // every sublore is usable and its value position resolves to a generation
 pub open spec fn lore_resolvable(fold: FoldResult, merge_ctx: MergeCtx) -> bool {
@@ -264,6 +309,8 @@ pub open spec fn lore_total(fold: FoldResult) -> int {
     ensures
         r is Ok <==> (lore_resolvable(*fold, *merge_ctx) && lore_total(*fold) <= u32::MAX),
         r matches Ok((count, lens)) ==> count == lore_total(*fold) && lv(lens).len() == fold.lore@.len(),
+        // the functional contract: every element is the convolution within its generation group
+        r matches Ok((count, lens)) ==> forall|k: int| 0 <= k < fold.lore@.len() ==> convoluted(#[trigger] lv(lens)[k], fold.lore@, *merge_ctx, k),
 //@ loop 0
         invariant
             subtraces_count == fold.lore@.len(),
@@ -276,13 +323,22 @@ pub open spec fn lore_total(fold: FoldResult) -> int {
             // the open group still holds the raw before lens and the after lens cumulated from the group start
             forall|k: int| last_seen_generation_pos <= k < subtrace_id ==> (#[trigger] lv(lens)[k]).before_len == bl(fold.lore@[k])
                 && lv(lens)[k].after_len == sum_a(fold.lore@, last_seen_generation_pos as int, k + 1),
+            // the open group is the group of its members; the closed groups are final
+            subtrace_id == 0 ==> last_seen_generation_pos == 0,
+            subtrace_id > 0 ==> last_seen_generation == gen_of(fold.lore@, *merge_ctx, subtrace_id - 1),
+            forall|k: int| last_seen_generation_pos <= k < subtrace_id ==> gs(fold.lore@, *merge_ctx, k) == last_seen_generation_pos
+                && gen_of(fold.lore@, *merge_ctx, k) == last_seen_generation,
+            forall|k: int| 0 <= k < last_seen_generation_pos ==> convoluted(#[trigger] lv(lens)[k], fold.lore@, *merge_ctx, k),
 //@ before "compute_before_lens(&mut lens, last_seen_generation_pos, subtrace_id - 1);"
+                let ghost open_lens = lv(lens);
                 proof {
                     let (g, i) = (last_seen_generation_pos as int, subtrace_id as int);
                     lemma_sum_bl_is_sum_b(lv(lens), fold.lore@, g, i);
                     lemma_sum_b_split(fold.lore@, 0, g, i); lemma_sum_a_split(fold.lore@, 0, g, i);
                     lemma_sum_b_nonneg(fold.lore@, 0, g); lemma_sum_a_nonneg(fold.lore@, 0, g);
                 }
+//@ after "compute_before_lens(&mut lens, last_seen_generation_pos, subtrace_id - 1);"
+                proof { lemma_group_final(open_lens, lv(lens), fold.lore@, *merge_ctx, last_seen_generation_pos as int, subtrace_id as int); }
 //@ before "fold_states_count = fold_states_count"
         proof {
             let (g, i, n) = (last_seen_generation_pos as int, subtrace_id as int, subtraces_count as int);
@@ -292,13 +348,39 @@ pub open spec fn lore_total(fold: FoldResult) -> int {
             lemma_sum_a_split(fold.lore@, 0, g, i + 1);
             lemma_sum_b_nonneg(fold.lore@, 0, i + 1); lemma_sum_a_nonneg(fold.lore@, 0, g);
         }
+//@ after "compute_before_lens(&mut lens, last_seen_generation_pos, subtraces_count - 1);"
+        proof { lemma_group_final(open_lens, lv(lens), fold.lore@, *merge_ctx, last_seen_generation_pos as int, subtraces_count as int); }
 //@ before "compute_before_lens(&mut lens, last_seen_generation_pos, subtraces_count - 1);"
+        let ghost open_lens = lv(lens);
         proof {
             let (g, n) = (last_seen_generation_pos as int, subtraces_count as int);
             lemma_sum_bl_is_sum_b(lv(lens), fold.lore@, g, n);
             lemma_sum_b_split(fold.lore@, 0, g, n); lemma_sum_a_split(fold.lore@, 0, g, n);
             lemma_sum_b_nonneg(fold.lore@, 0, g); lemma_sum_a_nonneg(fold.lore@, 0, g);
         }
+//@ end
+
+// the spec above against the two examples of the function's doc comment (also its unit tests convolution_test_1/2):
+// [1, 1] [2, 2] [3, 3] [4, 4] [5, 5] [1, 1] => [12, 1] [11, 3] [9, 6] [18, 4] [14, 9] [2, 1]
+//   g0     g0     g0     g1     g1     g2
+//@ lemma conv_spec_matches_doc_example props C01
+proof fn conv_spec_matches_doc_example(l: Seq<FoldSubTraceLore>, c: MergeCtx)
+    requires l.len() == 6,
+        forall|k: int| 0 <= k < 6 ==> lore_ok(#[trigger] l[k]),
+        bl(l[0]) == 1 && al(l[0]) == 1, bl(l[1]) == 2 && al(l[1]) == 2, bl(l[2]) == 3 && al(l[2]) == 3,
+        bl(l[3]) == 4 && al(l[3]) == 4, bl(l[4]) == 5 && al(l[4]) == 5, bl(l[5]) == 1 && al(l[5]) == 1,
+        gen_of(l, c, 0) == gen_of(l, c, 1), gen_of(l, c, 1) == gen_of(l, c, 2), gen_of(l, c, 2) != gen_of(l, c, 3),
+        gen_of(l, c, 3) == gen_of(l, c, 4), gen_of(l, c, 4) != gen_of(l, c, 5),
+    ensures
+        conv_before(l, c, 0) == 12 && conv_after(l, c, 0) == 1,
+        conv_before(l, c, 1) == 11 && conv_after(l, c, 1) == 3,
+        conv_before(l, c, 2) == 9 && conv_after(l, c, 2) == 6,
+        conv_before(l, c, 3) == 18 && conv_after(l, c, 3) == 4,
+        conv_before(l, c, 4) == 14 && conv_after(l, c, 4) == 9,
+        conv_before(l, c, 5) == 2 && conv_after(l, c, 5) == 1,
+{
+    reveal_with_fuel(gs, 7); reveal_with_fuel(ge, 7); reveal_with_fuel(sum_a, 7); reveal_with_fuel(sum_b, 7);
+}
 //@ end
 
 // ---------------------------------------------------------------- resolve_fold_lore: NOT lifted
